@@ -468,11 +468,12 @@ open Board Game
 gives back that position — all three board views, side, rights, e.p. target, both clocks, key, accumulators
 (the history stack, which a FEN does not carry, is empty) -/
 theorem parse_write (c : Cfg) (g : Game) (hs : Sync c g) (hh : g.halfmove < 4294967296) (hp : g.plies < 4000000000)
-    (hpar : g.plies % 2 = if g.player = .black then 1 else 0) :
+    (hpar : g.plies % 2 = if g.player = .black then 1 else 0) (hmen : tooManyMen g.board.squares = false) :
     parse c (write g) = .ok { g with history := [] } := by
   unfold parse write
   rw [parse_write_fields g.board.squares g.player g.rights g.ep g.halfmove g.plies hh hp hpar]
   simp only
+  rw [if_neg (by rw [hmen]; decide)]
   have hb : Board.ofSquares g.board.squares = g.board :=
     consistent_ext _ _ (consistent_ofSquares _) hs.cons rfl
   rw [hb]
@@ -485,9 +486,38 @@ theorem parse_write (c : Cfg) (g : Game) (hs : Sync c g) (hh : g.halfmove < 4294
 /-- **write ∘ parse** on canonical text: reading a FEN the writer produced and writing the result gives the
 same text again -/
 theorem write_parse_canonical (c : Cfg) (g : Game) (hs : Sync c g) (hh : g.halfmove < 4294967296)
-    (hp : g.plies < 4000000000) (hpar : g.plies % 2 = if g.player = .black then 1 else 0) :
+    (hp : g.plies < 4000000000) (hpar : g.plies % 2 = if g.player = .black then 1 else 0)
+    (hmen : tooManyMen g.board.squares = false) :
     ∃ g', parse c (write g) = .ok g' ∧ write g' = write g := by
-  exact ⟨_, parse_write c g hs hh hp hpar, rfl⟩
+  exact ⟨_, parse_write c g hs hh hp hpar hmen, rfl⟩
+
+/-- a board with more than sixteen men of one colour is reported as an error, never built -/
+theorem parse_crowded (c : Cfg) (s : String) (f : Fields) (hf : parseFields s.toList = .ok f)
+    (h : tooManyMen f.squares = true) : parse c s = .err := by
+  unfold parse
+  rw [hf]
+  simp only
+  rw [if_pos h]
+
+/-- every position the reader builds has at most sixteen men a side -/
+theorem parse_ok_men (c : Cfg) (s : String) (g : Game) (h : parse c s = .ok g) :
+    tooManyMen g.board.squares = false := by
+  unfold parse at h
+  cases hf : parseFields s.toList with
+  | ok f =>
+    rw [hf] at h
+    simp only at h
+    split at h
+    · cases h
+    · rename_i hm
+      have := Outcome.ok.inj h
+      rw [← this]
+      show tooManyMen (Board.ofSquares f.squares).squares = false
+      have e : (Board.ofSquares f.squares).squares = f.squares := rfl
+      rw [e]
+      simpa using hm
+  | err => rw [hf] at h; cases h
+  | panic => rw [hf] at h; cases h
 
 end Fen
 end Tcheran
